@@ -613,6 +613,17 @@ func run(sc vlib.Scenario, cfg vsched.Config) (*vsched.Result, vlib.Verdict) {
 		}
 		if res.Outcome != vsched.Completed {
 			v.Inconclusive = "not-completed:" + w.Phase
+			if w.Phase == "after" || w.Phase == "closing" || w.Phase == "traffic" {
+				// an operation on one of the streams (or opening a further one) never returned
+				where := ""
+				for _, t := range res.Alive {
+					if t.ID == 0 {
+						where = kit.SiteFunc(t.Site) + "/" + t.Op
+					}
+				}
+				v.Inconclusive = ""
+				v.Fail("C07.blocked", fmt.Sprintf("%s@%s/cuts=%d", w.Phase, where, w.cuts), "the scenario never finished (phase %s, close of %s, %d cuts): the application thread is parked at %s", w.Phase, w.p.Close, w.cuts, where)
+			}
 		}
 		w.connOracle(res, &v)
 	}
